@@ -18,6 +18,30 @@ func exact(b []byte) []byte {
 	return c[:len(b):len(b)]
 }
 
+// rx lays a received datagram out the way callers hold one: alone in an array of exactly its size, or - what a socket
+// read into a receive buffer gives - at the front of a larger array whose remaining capacity holds other octets.  The
+// three layouts alternate; the value (the octets inside the length) is the same, so the outcome must be.
+var rxCount int
+
+func rx(b []byte) []byte {
+	if !solo() {
+		return spare(b, 0x5a)
+	}
+	rxCount++
+	switch rxCount % 3 {
+	case 0:
+		return exact(b)
+	case 1:
+		return spare(b, 0x5a)
+	}
+	c := make([]byte, 2048+len(b))
+	copy(c, b)
+	for i := len(b); i < len(c); i++ {
+		c[i] = 0xc3 ^ byte(i*13)
+	}
+	return c[:len(b)]
+}
+
 // spare returns a copy of b placed inside a larger buffer whose tail holds a different pattern
 func spare(b []byte, pat byte) []byte {
 	c := make([]byte, len(b)+96)
@@ -29,6 +53,7 @@ func spare(b []byte, pat byte) []byte {
 }
 
 func implEncode(m *SX) string {
+	wdNote("encode", 0, nil, m)
 	return run(func() string {
 		b, err := goMsg(m).Encode()
 		if err != nil {
@@ -39,6 +64,7 @@ func implEncode(m *SX) string {
 }
 
 func implDecode(b []byte) string {
+	wdNote("decode", 0, b, nil)
 	return run(func() string {
 		m := new(message.IKEMessage)
 		if err := m.Decode(b); err != nil {
@@ -49,6 +75,7 @@ func implDecode(b []byte) string {
 }
 
 func implDecodePayloads(next uint8, b []byte) string {
+	wdNote("decode_payloads", int(next), b, nil)
 	return run(func() string {
 		var c message.IKEPayloadContainer
 		if err := c.Decode(next, b); err != nil {
@@ -59,6 +86,7 @@ func implDecodePayloads(next uint8, b []byte) string {
 }
 
 func implContainerEncode(ps *SX) string {
+	wdNote("container_encode", 0, nil, ps)
 	return run(func() string {
 		c := goPayloads(ps)
 		b, err := c.Encode()
@@ -70,6 +98,7 @@ func implContainerEncode(ps *SX) string {
 }
 
 func implParseHeader(b []byte) string {
+	wdNote("parse_header", 0, b, nil)
 	return run(func() string {
 		h, err := message.ParseHeader(b)
 		if err != nil {
@@ -118,6 +147,7 @@ func newPayload(ty int) message.IKEPayload {
 }
 
 func implPayloadUnmarshal(ty int, b []byte) string {
+	wdNote("payload_unmarshal", ty, b, nil)
 	return run(func() string {
 		p := newPayload(ty)
 		if err := p.Unmarshal(b); err != nil {
@@ -128,6 +158,7 @@ func implPayloadUnmarshal(ty int, b []byte) string {
 }
 
 func implPayloadMarshal(p *SX) string {
+	wdNote("payload_marshal", 0, nil, p)
 	return run(func() string {
 		b, err := goPayload(p).Marshal()
 		if err != nil {
@@ -138,6 +169,7 @@ func implPayloadMarshal(p *SX) string {
 }
 
 func implEapUnmarshal(b []byte) string {
+	wdNote("eap_unmarshal", 0, b, nil)
 	return run(func() string {
 		e := new(eap.EAP)
 		if err := e.Unmarshal(b); err != nil {
@@ -148,6 +180,7 @@ func implEapUnmarshal(b []byte) string {
 }
 
 func implEapMarshal(e *SX) string {
+	wdNote("eap_marshal", 0, nil, e)
 	return run(func() string {
 		b, err := goEap(e).Marshal()
 		if err != nil {
@@ -158,6 +191,7 @@ func implEapMarshal(e *SX) string {
 }
 
 func implEapDataUnmarshal(ty int, b []byte) string {
+	wdNote("eapdata_unmarshal", ty, b, nil)
 	return run(func() string {
 		var d eap.EapTypeData
 		switch ty {
